@@ -234,7 +234,7 @@ pub fn run(ctx: &Ctx) -> Finish {
         for s in sequences(cfs.len(), k) {
             removed_lists.push(s.iter().enumerate().map(|(i, fi)| RemRep {
                 constraint: ConRep::new(removed_ids[i], if (fi + i) % 2 == 0 { LE_ZERO } else { EQ_ZERO }, cfs[*fi].clone()),
-                reason: "earlier".into(),
+                reason: ["earlier", "uniform_penalty_method", "penalty_method"][(i + fi + k) % 3].into(),
                 parameters: vec![("a".into(), "b".into())],
             }).collect());
         }
